@@ -151,6 +151,14 @@ CHECKS.update({
             TRUST_HTTP, '4.17'),
 })
 
+CHECKS.update({
+    'C18': ('fault_enumeration',
+            'the real DashValidator driven in-process through a response-rewriting HttpClient adapter under a virtual clock: clean sessions must end without errors, sessions with one injected specification violation (fault catalogue) must end with an error located at the corrupted element',
+            'Thousands of validator sessions per run over all templates/modes/option vectors/clocks; half of them with exactly one response '
+            'rewritten by the independent walker / lxml (15 fault kinds); outcome judged per fault with the error line ranges.',
+            TRUST_HTTP + ' The validator gets the server-side representation info exactly as upstream\'s own test harness provides it.', '4.18'),
+})
+
 NOT_YET = {}
 
 
